@@ -143,6 +143,17 @@ def scenarios(tier, rng):
                                   {"ops": [{"op": "list", "dir": "@B"}, dict(restore_op(full, expect_dir="@B"), dir="@B"),
                                            {"op": "solve", "k": 2}, {"op": "wait"}, {"op": "list", "dir": "@B"}], "cwd": "cwd2"}],
                                  rel_new_dir=True))
+    # a periodic solver built with ANOTHER period loads a checkpoint (and thereby adopts the checkpoint's period),
+    # continues with checkpointing on, and its checkpoints are restored later: they must describe what it really held
+    for pname in ("forest12", "tab_ring"):
+        pspec, full = P[pname]
+        other = 3 if pname == "forest12" else 2
+        out.append(base_scenario(f"PVI-{pname}-loaded-into-another-period", "PVI", pname, pspec, full, 1, 3, False,
+                                 [{"ops": [{"op": "new"}, {"op": "solve", "k": 4}, {"op": "wait"}, {"op": "list", "dir": "@A"}]},
+                                  {"ops": [{"op": "list", "dir": "@A"}, {"op": "load", "dir": "@A", "kw": {"period": other}},
+                                           {"op": "solve", "k": 3}, {"op": "wait"}, {"op": "list", "dir": "@A"}]},
+                                  {"ops": [{"op": "list", "dir": "@A"}, restore_op(full), {"op": "solve", "k": BIG},
+                                           {"op": "wait"}, {"op": "list", "dir": "@A"}]}]))
     # error paths
     pspec, full = P["tabular"]
     out.append(base_scenario("VI-tabular-restore-without-config", "VI", "tabular", pspec, False, 1, 2, False,
